@@ -25,6 +25,8 @@ pub struct Sink {
     pub zero_at_call: Option<u64>,
     pub rng: rand::rngs::StdRng,
     pub log: bool,
+    /// kind of the terminal error (anything but Interrupted)
+    pub fault_kind: io::ErrorKind,
     decisive: u64,
     intr_budget: u32,
 }
@@ -40,6 +42,7 @@ impl Sink {
             zero_at_call: None,
             rng: crate::rng(seed, 0x7171),
             log: true,
+            fault_kind: crate::source::FAULT_KINDS[(seed.wrapping_mul(0x9E3779B97F4A7C15) >> 33) as usize % crate::source::FAULT_KINDS.len()],
             decisive: 0,
             intr_budget: 0,
         }
@@ -66,7 +69,7 @@ impl Write for Sink {
             if self.log {
                 crate::trace::rec(json!({"ev":"sink","offered":buf.len(),"kind":"err","n":0,"bytes":[]}));
             }
-            return Err(io::Error::new(io::ErrorKind::Other, "injected sink fault"));
+            return Err(io::Error::new(self.fault_kind, "injected sink fault"));
         }
         if self.zero_at_call == Some(self.decisive) && !buf.is_empty() {
             self.state.borrow_mut().failed = true;
